@@ -25,10 +25,10 @@ the `notes`/`meta.json` of the change. `detected` = exit 1 + VIOLATION line.
 |---|---|---|---|
 %s
 
-Changes that were first missed and led to stronger checks: C07-b, C07-d (fresh + worn-out
-slots together), C08-a, C08-b (attribution of liveness divergence / payload-read panics to
-C08), C08-c (payload churn), C08-d (`clone_from`), C09-d (mid-iteration clones), C11-b
-(monitor panic attributed to own property), C02-c (blind continuation + replay of stalls).
+Changes that were first missed and led to stronger checks (19 of 72): round 1 - C07-b, C08-a,
+C08-b, C11-b; round 2 - C02-c, C07-d, C08-c, C08-d, C09-d, C10-c, C10-d, C11-c, C12-c, C13-d,
+C14-d, C15-d, C17-c, C18-c (what was added for each is in section 8). Release-only changes
+(C01-d, C03-c, C05-c) were caught at once because every behavioural check runs both builds.
 """ % (len(rows), "\n".join(rows))
 p = os.path.join(V, "DESIGN.md")
 s = open(p).read()
